@@ -60,6 +60,31 @@ func runC13(c *run.Ctx) {
 		if i < 1 {
 			c.Sample(map[string]interface{}{"wellformed_sdl": clip(sdl, 1200)})
 		}
+		// rule breaches that arrive as a LATER load on top of the accepted schema: an extend block that makes the extended
+		// type, or a type the document does not even mention, ill-formed. Each must be refused, naming the offender.
+		for bi, be := range badExtensions(ms) {
+			if !c.Thorough() && (bi+i)%3 != 0 {
+				continue
+			}
+			lr, lerr := loadSDL(sdl)
+			if lerr != nil {
+				break
+			}
+			var xerr error
+			pv, _ := run.Protect(func() { xerr = lr.ParseString(be.text) })
+			mutants++
+			c.Eval(sdl+"\n"+be.text, true)
+			c.Bucket("rule", "late-extension:"+be.what)
+			switch {
+			case pv != nil:
+				c.Violation("c13-late-extension-panic", map[string]interface{}{"rule": be.what, "sdl": sdl, "later_load": be.text, "panic": fmt.Sprint(pv)})
+			case xerr == nil:
+				c.Violation("c13-mutant-accepted", map[string]interface{}{"rule": "late-extension:" + be.what, "offender": be.offender, "sdl": sdl, "later_load": be.text,
+					"diag": "the extension makes the schema ill-formed but was loaded without error"})
+			case !strings.Contains(xerr.Error(), be.offender):
+				c.Violation("c13-offender-not-named", map[string]interface{}{"rule": "late-extension:" + be.what, "offender": be.offender, "sdl": sdl, "later_load": be.text, "diag": clip(xerr.Error(), 400)})
+			}
+		}
 		for mi, m := range muts {
 			for rep := 0; rep < reps; rep++ {
 				mut := gen.TypeSchema(c.Rand(i), opts(i))
